@@ -71,8 +71,11 @@ type Machine struct {
 	Events   []Event
 	User     any // driver-specific state (reset by the driver per path)
 
-	symSeq int
-	Interned map[string]sym.Expr // integer atoms standing for float->int conversions etc.
+	symSeq   int
+	Interned map[string]sym.Expr
+	inInit   int
+	globals  map[*ssa.Global]*Cell
+	initDone map[*ssa.Package]bool // integer atoms standing for float->int conversions etc.
 }
 
 func NewMachine(prog *ssa.Program) *Machine {
@@ -311,6 +314,8 @@ func (m *Machine) resetPath() {
 	m.steps = 0
 	m.depth = 0
 	m.Events = nil
+	m.globals = nil
+	m.initDone = nil
 }
 
 func (m *Machine) runOnce(body func()) (err error) {
@@ -368,6 +373,7 @@ type divergence struct{}
 type frame struct {
 	fn     *ssa.Function
 	locals map[ssa.Value]Value
+	defers []func()
 }
 
 func (m *Machine) progPanic(fr *frame, pos token.Pos, format string, a ...any) {
@@ -385,7 +391,7 @@ func (m *Machine) get(fr *frame, v ssa.Value) Value {
 	case *ssa.Function:
 		return ClosureV{Fn: x}
 	case *ssa.Global:
-		panic(Unsupported{"package-level variable " + x.String()})
+		return PtrV{m.globalCell(x)}
 	case *ssa.Builtin:
 		panic(Unsupported{"builtin used as value " + x.Name()})
 	}
@@ -394,6 +400,39 @@ func (m *Machine) get(fr *frame, v ssa.Value) Value {
 		panic(Unsupported{fmt.Sprintf("value %s (%T) not computed in %s", v.Name(), v, fr.fn.String())})
 	}
 	return val
+}
+
+// globalCell returns the cell of a package-level variable of the analysed module, running the package's
+// initialiser on first use (per path).
+func (m *Machine) globalCell(g *ssa.Global) *Cell {
+	if m.globals == nil {
+		m.globals = map[*ssa.Global]*Cell{}
+		m.initDone = map[*ssa.Package]bool{}
+	}
+	pkg := g.Pkg
+	if pkg == nil || m.Hooks.Enter == nil {
+		panic(Unsupported{"package-level variable " + g.String()})
+	}
+	if !m.initDone[pkg] {
+		m.initDone[pkg] = true
+		for _, mem := range pkg.Members {
+			if gv, ok := mem.(*ssa.Global); ok {
+				m.globals[gv] = m.newCell(gv.Type().(*types.Pointer).Elem(), "global:"+gv.Name())
+			}
+		}
+		if init := pkg.Func("init"); init != nil && init.Blocks != nil && m.Hooks.Enter(init) {
+			m.inInit++
+			m.Call(init, nil, nil)
+			m.inInit--
+		}
+		m.Emit("global-init", g.Pos(), "package", pkg.Pkg.Path())
+	}
+	c, ok := m.globals[g]
+	if !ok {
+		panic(Unsupported{"package-level variable " + g.String()})
+	}
+	m.Emit("global-access", g.Pos(), "var", g.String())
+	return c
 }
 
 func (m *Machine) constValue(c *ssa.Const) Value {
@@ -442,6 +481,9 @@ func (m *Machine) Call(fn *ssa.Function, args []Value, bind []Value) Value {
 		enter = m.Hooks.Enter(fn)
 	}
 	if !enter {
+		if m.inInit > 0 && fn.Name() == "init" {
+			return nil
+		}
 		if res, ok := m.builtinExternal(fn, args); ok {
 			return res
 		}
@@ -558,7 +600,33 @@ func (m *Machine) execBlock(fr *frame, b *ssa.BasicBlock, prev *ssa.BasicBlock) 
 			m.mapUpdate(fr, x)
 		case *ssa.DebugRef:
 		case *ssa.RunDefers:
-		case *ssa.Defer, *ssa.Go, *ssa.Send, *ssa.Select:
+			for i := len(fr.defers) - 1; i >= 0; i-- {
+				fr.defers[i]()
+			}
+			fr.defers = nil
+		case *ssa.Defer:
+			cc := x.Common()
+			if cc.IsInvoke() {
+				panic(Unsupported{"deferred interface call"})
+			}
+			args := make([]Value, len(cc.Args))
+			for i, a := range cc.Args {
+				args[i] = m.get(fr, a)
+			}
+			switch callee := cc.Value.(type) {
+			case *ssa.Function:
+				fr.defers = append(fr.defers, func() { m.Call(callee, args, nil) })
+			case *ssa.Builtin:
+				panic(Unsupported{"deferred builtin"})
+			default:
+				fv := m.get(fr, cc.Value)
+				cv, ok := fv.(ClosureV)
+				if !ok {
+					panic(Unsupported{"deferred call through " + Describe(fv)})
+				}
+				fr.defers = append(fr.defers, func() { m.Call(cv.Fn, args, cv.Bind) })
+			}
+		case *ssa.Go, *ssa.Send, *ssa.Select:
 			panic(Unsupported{fmt.Sprintf("instruction %T", in)})
 		case ssa.Value:
 			fr.locals[x] = m.eval(fr, x)
